@@ -12,6 +12,7 @@ import (
 	"sync"
 	"sync/atomic"
 
+	"github.com/tychoish/fun"
 	"github.com/tychoish/fun/erc"
 	"github.com/tychoish/fun/ers"
 
@@ -43,6 +44,14 @@ type holesErr struct{ errs []error }
 
 func (h *holesErr) Error() string   { return fmt.Sprintf("holesErr(%d slots)", len(h.errs)) }
 func (h *holesErr) Unwrap() []error { return h.errs }
+
+// unwinderErr is a multi-error of another library: it offers
+// Unwind() []error (the interface ers prefers), its slice has unset slots
+// and nested aggregates.
+type unwinderErr struct{ errs []error }
+
+func (u *unwinderErr) Error() string   { return fmt.Sprintf("unwinderErr(%d slots)", len(u.errs)) }
+func (u *unwinderErr) Unwind() []error { return u.errs }
 
 type holesSnap struct {
 	h    *holesErr
@@ -111,12 +120,12 @@ func c12Gen(rng *rand.Rand, depth int, ctr *int) *enode {
 			return &enode{kind: "nil"}
 		}
 	}
-	kinds := []string{"join", "join", "join", "wrap", "fmtw", "stdjoin", "panic", "stack", "panic-string", "unwrap", "holes"}
+	kinds := []string{"join", "join", "join", "wrap", "fmtw", "stdjoin", "panic", "stack", "panic-string", "unwrap", "holes", "unwinder"}
 	k := kinds[rng.IntN(len(kinds))]
 	n := &enode{kind: k}
 	nk := 1
 	switch k {
-	case "join", "stdjoin", "stack":
+	case "join", "stdjoin", "stack", "unwinder":
 		nk = rng.IntN(5) // 0..4
 	case "holes":
 		nk = 2 + rng.IntN(5)
@@ -221,6 +230,12 @@ func (n *enode) eval() eresult {
 		out.err = ers.Join(kerrs...)
 		concat()
 		out.desc = "Join(" + strings.Join(descs, ", ") + ")"
+	case "unwinder":
+		// the operands reach Join inside a foreign multi-error, nil slots and
+		// nested aggregates included: the same constituents as a plain Join
+		out.err = ers.Join(&unwinderErr{errs: append([]error(nil), kerrs...)})
+		concat()
+		out.desc = "Join(unwinder[" + strings.Join(descs, ", ") + "])"
 	case "holes":
 		concat()
 		if len(out.flat) == 0 {
@@ -527,6 +542,16 @@ func runC12(r *kit.Run) {
 			continue
 		}
 		c12Collector(r, i, r.Rng("collector", i))
+	}
+	nss := int64(r.Scale(3000, 300000))
+	if r.Build != "plain" {
+		nss /= 20
+	}
+	for i := int64(0); i < nss && !r.Stopped(); i++ {
+		if !r.Mine(i) {
+			continue
+		}
+		c12Session(r, i, r.Rng("session", i))
 	}
 	nt := int64(r.Scale(40, 2000))
 	if r.Build != "plain" {
@@ -921,4 +946,214 @@ func firstOr(errs []error) error {
 		return nil
 	}
 	return errs[0]
+}
+
+// c12Session drives one Collector through a sequential program that uses
+// every way errors get into it (Add, Handler, Check, Collect, When, Recover,
+// WithRecoverCall / WithRecoverDo, RecoverHook, Consume, Stream) and looks
+// at it between the steps (Resolve, Len, HasErrors / Ok, Future, Iterator):
+// whatever was looked at before, the next look reports everything added so
+// far.
+func c12Session(r *kit.Run, idx int64, rng *rand.Rand) {
+	ec := &erc.Collector{}
+	var want []error // identity-comparable constituents added so far
+	panics := 0      // recovered panics
+	others := 0      // additions that cannot be asked about by identity (When)
+	var log []string
+	r.Eval()
+	desc := func() map[string]any { return map[string]any{"mode": "collector-session", "steps": log} }
+	viol := func(kind, detail string) { r.Violation("C12/Collector.session/"+kind, idx, desc(), detail, nil) }
+	mk := func() error { return seqErr(len(want)*1000 + len(log)) }
+	look := func(how string) bool {
+		var res error
+		switch how {
+		case "Resolve":
+			res = ec.Resolve()
+		case "Future":
+			res = ec.Future()()
+		case "Len":
+			n := ec.Len()
+			if (n == 0) != (len(want)+panics+others == 0) || n < len(want) {
+				viol("len-mismatch", fmt.Sprintf("Len()=%d after %d errors and %d recovered panics were added", n, len(want)+others, panics))
+				return false
+			}
+			if ec.HasErrors() != (n != 0) || ec.Ok() != (n == 0) {
+				viol("len-mismatch", fmt.Sprintf("HasErrors()=%v Ok()=%v with Len()=%d", ec.HasErrors(), ec.Ok(), n))
+				return false
+			}
+			return true
+		case "Iterator":
+			seen := map[error]int{}
+			it := ec.Iterator()
+			for k := 0; it.Next(context.Background()) && k < 10000; k++ {
+				seen[it.Value()]++
+			}
+			for _, e := range want {
+				if seen[e] != 1 {
+					viol("iterator-mismatch", fmt.Sprintf("the iterator yields %v %d times, it was added once", e, seen[e]))
+					return false
+				}
+			}
+			return true
+		}
+		if (res == nil) != (len(want)+panics+others == 0) {
+			viol("nil-ness", fmt.Sprintf("%s() is %v after %d errors and %d recovered panics were added", how, res, len(want)+others, panics))
+			return false
+		}
+		for _, e := range want {
+			if !errors.Is(res, e) {
+				viol("constituent-missing", fmt.Sprintf("errors.Is(%s(), %v) is false although it was added; result: %v", how, e, res))
+				return false
+			}
+		}
+		if panics > 0 && !errors.Is(res, fun.ErrRecoveredPanic) {
+			viol("constituent-missing", fmt.Sprintf("%d panic(s) were recovered into the collector, errors.Is(%s(), ErrRecoveredPanic) is false; result: %v", panics, how, res))
+			return false
+		}
+		if res != nil {
+			uw := ers.Unwind(res)
+			have := map[error]int{}
+			for _, u := range uw {
+				if _, isSeq := u.(seqErr); isSeq {
+					have[u]++
+				}
+			}
+			for _, e := range want {
+				if have[e] != 1 {
+					viol("unwind-mismatch", fmt.Sprintf("Unwind(%s()) lists %v %d times, it was added once (%d items)", how, e, have[e], len(uw)))
+					return false
+				}
+			}
+		}
+		return true
+	}
+	kinds := map[string]bool{}
+	steps := 3 + rng.IntN(14)
+	panicked, pv, pst := kit.Guard(func() {
+		for s := 0; s < steps; s++ {
+			if rng.IntN(5) < 2 {
+				how := []string{"Resolve", "Resolve", "Future", "Len", "Iterator"}[rng.IntN(5)]
+				log = append(log, how)
+				if !look(how) {
+					return
+				}
+				continue
+			}
+			op := []string{"Add", "Add(nil)", "Handler", "Check", "Check(nil)", "Collect", "When", "When(false)", "Recover", "WithRecoverCall", "WithRecoverCall(no panic)", "WithRecoverDo", "RecoverHook", "RecoverHook(string)", "RecoverHook(no panic)", "Consume", "Stream", "Add(join)"}[rng.IntN(18)]
+			log = append(log, op)
+			kinds[op] = true
+			switch op {
+			case "Add":
+				e := mk()
+				ec.Add(e)
+				want = append(want, e)
+			case "Add(nil)":
+				ec.Add(nil)
+			case "Handler":
+				e := mk()
+				ec.Handler()(e)
+				want = append(want, e)
+			case "Check":
+				e := mk()
+				erc.Check(ec, func() error { return e })
+				want = append(want, e)
+			case "Check(nil)":
+				erc.Check(ec, func() error { return nil })
+			case "Collect":
+				e := mk()
+				if got := erc.Collect[int](ec)(7, e); got != 7 {
+					viol("collect-value", fmt.Sprintf("Collect returned %d, want 7", got))
+					return
+				}
+				want = append(want, e)
+			case "When":
+				erc.When(ec, true, fmt.Sprintf("when-%d", s))
+				others++
+			case "When(false)":
+				erc.When(ec, false, "never")
+			case "Recover":
+				e := mk()
+				func() {
+					defer erc.Recover(ec)
+					panic(e)
+				}()
+				want = append(want, e)
+				panics++
+			case "WithRecoverCall":
+				e := mk()
+				erc.WithRecoverCall(ec, func() { panic(e) })
+				want = append(want, e)
+				panics++
+			case "WithRecoverCall(no panic)":
+				erc.WithRecoverCall(ec, func() {})
+			case "WithRecoverDo":
+				e := mk()
+				_ = erc.WithRecoverDo(ec, func() int { panic(e) })
+				want = append(want, e)
+				panics++
+			case "RecoverHook":
+				e := mk()
+				hooked := false
+				func() {
+					defer erc.RecoverHook(ec, func() { hooked = true })
+					panic(e)
+				}()
+				if !hooked {
+					viol("hook-not-run", "RecoverHook did not run its hook after a panic")
+					return
+				}
+				want = append(want, e)
+				panics++
+			case "RecoverHook(string)":
+				func() {
+					defer erc.RecoverHook(ec, nil)
+					panic(fmt.Sprintf("text-%d", s))
+				}()
+				panics++
+			case "RecoverHook(no panic)":
+				func() { defer erc.RecoverHook(ec, func() { panic("hook must not run") }) }()
+			case "Consume":
+				es := []error{mk(), nil}
+				want = append(want, es[0])
+				e2 := seqErr(-len(log) - 1)
+				es = append(es, e2)
+				want = append(want, e2)
+				var items []error
+				for _, e := range es {
+					if e != nil {
+						items = append(items, e)
+					}
+				}
+				erc.Consume(context.Background(), ec, fun.SliceIterator(items))
+			case "Stream":
+				e := mk()
+				ch := make(chan error, 2)
+				ch <- e
+				close(ch)
+				erc.Stream(context.Background(), ec, ch)
+				want = append(want, e)
+			case "Add(join)":
+				e1, e2 := mk(), seqErr(-len(log)-1)
+				ec.Add(ers.Join(e1, nil, e2))
+				want = append(want, e1, e2)
+			}
+		}
+		log = append(log, "Resolve")
+		if !look("Resolve") {
+			return
+		}
+		log = append(log, "Len")
+		look("Len")
+	})
+	if panicked {
+		viol("panic", fmt.Sprintf("panic: %v\n%s", pv, clipS(pst, 1200)))
+		return
+	}
+	ks := make([]string, 0, len(kinds))
+	for k := range kinds {
+		ks = append(ks, k)
+	}
+	sort.Strings(ks)
+	r.Distinct("session|" + strings.Join(ks, ","))
+	r.Count("collector_session_steps", int64(len(log)))
 }
